@@ -68,6 +68,16 @@ PROPS = {
         "not_covered": ["f32 rounding/conditioning", "monotonicity/invariance corollaries (not mechanised)", "ESS values inside the summary (C12)"],
         "assumptions": ["ndarray reduction/slicing contracts of prelude/ndfloat.rs", "slice::sort_by returns a permutation ordered by the comparator when the comparator is a total order (std docs)"],
     },
+    "C13": {
+        "units": ["trackers"],
+        "design_ref": "DESIGN.md §8 C13",
+        "technique": "Verus deductive proof with a quantified ghost update history: representation invariant wf(tracker, fed) preserved by the extracted ChainTracker::step, stats() and collect_rhat/withinvar_from_cs proved against batch formulas in real arithmetic",
+        "level_text": "Unbounded deductive proof (Verus/z3) for every update sequence, number of parameters and chains: ChainTracker::new establishes and ::step preserves the invariant 'n, running mean and running mean of squares are those of exactly the fed states' (for every possible history fed), stats() then reports count, mean and unbiased variance of the fed states, the acceptance rate is an EMA with weight 0.01 of 'state differs' indicators and stays in [0,1], and collect_rhat is sqrt(var+/W) with the between-chain variance divided by (chains - 1) for every number of parameters.",
+        "level_note": "Real arithmetic on finite data (f32 conditioning not modelled). ndarray element-wise operators, reductions, stack/broadcast and Zip::fold over rows are assumed contracts (prelude/ndtrack.rs). Element conversion to_f32 is assumed to be a total function for primitive numerics. MultiChainTracker (the HMC progress tracker) is not yet under contract: 'identical to what the multi-chain tracker reports' is not decided.",
+        "explanation": "the fed sequence is a universally quantified ghost parameter of the postconditions (forall fed. wf(old, fed) ==> wf(new, fed.push(x)))",
+        "not_covered": ["MultiChainTracker::{step,rhat,within_and_var} and its equality with collect_rhat", "f32 conditioning"],
+        "assumptions": ["ToPrimitive::to_f32 is a function of the value", "ndarray contracts of prelude/ndtrack.rs"],
+    },
     "C16": {
         "units": ["categorical"],
         "design_ref": "DESIGN.md §8 C16",
@@ -96,9 +106,10 @@ UNIT_PROPS = {
     "core": ["C09", "C10", "C18", "C07"],
     "categorical": ["C16"],
     "stats": ["C11", "C12", "C10"],
+    "trackers": ["C13"],
 }
 
-HOOK_COMMITS = ["9c48c67", "214a974"]
+HOOK_COMMITS = ["9c48c67", "214a974", "5238a4e", "87ca85d"]
 
 NOT_APPLICABLE = {
     "C06": "distributional / asymptotic statement (law of large numbers with calibrated error): no contract a deductive verifier can discharge expresses it; see DESIGN.md §8 C06",
